@@ -160,8 +160,11 @@ def run(argv, stdin=None, env=None, cwd=None, timeout=20.0, cap=32 << 20, stdout
         killpg(p.pid)  # stragglers of the group (prepipes, system())
         fin.close(); fout.close(); ferr.close()
     wall = time.time() - t0
-    with open(outp, "rb") as f:
-        out = f.read()
+    if stdout_path is not None and not os.path.isfile(outp):
+        out = b""   # e.g. /dev/full: reading it back would never end
+    else:
+        with open(outp, "rb") as f:
+            out = f.read(cap + 1)
     with open(errp, "rb") as f:
         err = f.read(1 << 20)
     capped = (rc == -signal.SIGXFSZ) or len(out) >= cap
